@@ -1,11 +1,14 @@
 """Batch runner: one forked child per chunk of cases, results over a pipe, wall time-outs
 classified as HARNESS-TIMEOUT (never success, never VIOLATION) — DESIGN §2.7/§2.8/§2.9.
 """
+import atexit
 import faulthandler
 import gc
 import json
 import os
 import select
+import shutil
+import tempfile
 import signal
 import sys
 import traceback
@@ -13,6 +16,31 @@ import traceback
 from sim import boot
 
 NCPU = int(os.environ.get("VERIF_WORKERS", "0")) or min(16, os.cpu_count() or 1)
+
+
+_TMPROOT = None
+
+
+def tmp_root():
+    """Per-batch scratch root (tmpfs when available); removed by the parent at exit."""
+    global _TMPROOT
+    if _TMPROOT is None:
+        base = "/dev/shm" if os.path.isdir("/dev/shm") and os.access("/dev/shm", os.W_OK) else tempfile.gettempdir()
+        _TMPROOT = tempfile.mkdtemp(prefix="verif-%d-" % os.getpid(), dir=base)
+        atexit.register(_cleanup_root, os.getpid(), _TMPROOT)
+    return _TMPROOT
+
+
+def _cleanup_root(pid, path):
+    if os.getpid() == pid:
+        shutil.rmtree(path, ignore_errors=True)
+
+
+def child_tmp():
+    """Scratch directory of the current (forked) run; the parent removes it after reaping."""
+    d = os.path.join(tmp_root(), "c%d" % os.getpid())
+    os.makedirs(d, exist_ok=True)
+    return d
 
 
 def _child(fn, items, wfd, timeout):
@@ -68,6 +96,7 @@ def run_forked(fn, items, chunk=1, workers=None, timeout=120, wall_budget=None, 
     If wall_budget (seconds) is exceeded, remaining items are not started and are reported
     as {"skipped": True}."""
     workers = workers or NCPU
+    root = tmp_root()
     items = list(items)
     chunks = [(i, items[i:i + chunk]) for i in range(0, len(items), chunk)]
     results = [None] * len(items)
@@ -115,6 +144,7 @@ def run_forked(fn, items, chunk=1, workers=None, timeout=120, wall_budget=None, 
                 os.waitpid(ent[0], 0)
             except ChildProcessError:
                 pass
+            shutil.rmtree(os.path.join(root, "c%d" % ent[0]), ignore_errors=True)
             try:
                 out = json.loads(bytes(ent[3]).decode("utf-8"))
             except Exception:
@@ -134,6 +164,7 @@ def run_forked(fn, items, chunk=1, workers=None, timeout=120, wall_budget=None, 
             except OSError:
                 pass
             os.close(rfd)
+            shutil.rmtree(os.path.join(root, "c%d" % ent[0]), ignore_errors=True)
             for j in range(ent[2]):
                 results[ent[1] + j] = {"harness_timeout": True}
     return results
